@@ -91,8 +91,8 @@ KeyFor(s, body, K) ==
 (* what processing an inbound message yields (finish() not yet consumed)     *)
 Process(s, m) ==
   LET sv == SideVerdict(s.cls, m) IN
-  IF sv # "ok" THEN Err(sv)
-  ELSE IF ~s.started THEN Err("Rejected")                         \* finish() before start()
+  IF ~s.started THEN Err("Rejected")      \* finish() before start() raises (C07); which error, also for a wrong side label, is left open
+  ELSE IF sv # "ok" THEN Err(sv)
   ELSE LET body == Tail(m)
            d    == GDec(s.ps.grp, body)
        IN IF ~d.ok THEN Err("Rejected")                            \* strict decoding (C05)
